@@ -35,7 +35,7 @@ KINDS = {
 class C03(Check):
     ID = 'C03'
     LEVEL = 'exploration'
-    BUDGET = {'quick': 30, 'thorough': 240}
+    BUDGET = {'quick': 75, 'thorough': 240}
     RULE = ('case = (program, input). Programs come from the typed generator biased to structure: nesting depth 0..4 of group_by / roll / split / time_split / tee_map around '
             'arbitrary operators (incl. the multiplexed-only ones), window <,=,> stride, filters that empty a group, take(0); inputs of length 0, 1, shorter than a window, and '
             'long. The automaton runs on EVERY MuxObservable subscription of the run (10-40 boundaries per program). non-trivial = >= 2 nested key-producing operators or an '
@@ -63,7 +63,7 @@ class C03(Check):
                 prog = [ctx] if rng.random() < 0.5 else [['group_by', 'mod:%d' % rng.randint(2, 4), [ctx]]]
                 yield {'prog': prog, 'items': gen.gen_items(rng, n=rng.choice([0, 1, 5, 20, 40]), sorted_=(ctx[0] == 'time_split'))}
                 continue
-            if k % 40 == 20:
+            if k % 40 == 4:
                 # several pushed streams sharing ONE store (with_store(sources=[...])), each through its own pipeline; one of
                 # them ends first and somebody tries to subscribe it again while the others are still live
                 m = rng.randint(2, 3)
@@ -75,7 +75,7 @@ class C03(Check):
                     streams.append({'prog': pr, 'items': gen.gen_items(rng, n=rng.choice([0, 1, 3, 8, 15]), hi=12, sorted_=True)})
                 yield {'multi': streams, 'oseed': rng.randrange(1 << 30), 'resubscribe': rng.randrange(m)}
                 continue
-            if k % 150 == 75:
+            if k % 150 == 9:
                 # scale: windows of 257-400 items, 300-1000 groups, take/batch/lag 257+ on ~700 items
                 o = gen.GenOpts(max_depth=2, ctx_weight=8, tee_weight=2, allow_progress=False, no_streaming_mutation=True, scale=True,
                                 exclude_ops=('fvariance', 'fstddev'))
